@@ -1088,12 +1088,16 @@ type raceCfg struct {
 	procs, n, steps int
 	seed            int64
 	cold            bool // the goroutines make the first calls into the library of the process
+	goreader        bool // crypto/rand.Reader replaced by a source written in Go (its writes are visible to the race detector)
 }
 
 func (r raceCfg) String() string {
 	s := fmt.Sprintf("racecheck gomaxprocs=%d goroutines=%d steps=%d seed=%d", r.procs, r.n, r.steps, r.seed)
 	if r.cold {
 		s += " cold"
+	}
+	if r.goreader {
+		s += " goreader"
 	}
 	return s
 }
@@ -1123,7 +1127,7 @@ func runCmd(timeout time.Duration, dir string, env []string, name string, args .
 
 func (c *Ctx) c18Run(s *SuiteStat, bin string, cfg raceCfg, idx int) {
 	out, code, err := runCmd(5*time.Minute, "", goEnv(fmt.Sprintf("GOMAXPROCS=%d", cfg.procs), "GORACE=exitcode=66 halt_on_error=1 atexit_sleep_ms=20"),
-		bin, append([]string{"-seed", strconv.FormatInt(cfg.seed, 10), "-n", strconv.Itoa(cfg.n), "-steps", strconv.Itoa(cfg.steps)}, map[bool][]string{true: {"-cold"}, false: nil}[cfg.cold]...)...)
+		bin, append([]string{"-seed", strconv.FormatInt(cfg.seed, 10), "-n", strconv.Itoa(cfg.n), "-steps", strconv.Itoa(cfg.steps)}, append(map[bool][]string{true: {"-cold"}, false: nil}[cfg.cold], map[bool][]string{true: {"-goreader"}, false: nil}[cfg.goreader]...)...)...)
 	ops := 0
 	race, okLine := false, false
 	var diffs []string
@@ -1167,32 +1171,34 @@ func (c *Ctx) c18Configs() []raceCfg {
 	if c.replay != nil {
 		var r raceCfg
 		if n, _ := fmt.Sscanf(c.replay.Input, "racecheck gomaxprocs=%d goroutines=%d steps=%d seed=%d", &r.procs, &r.n, &r.steps, &r.seed); n == 4 {
-			r.cold = strings.HasSuffix(c.replay.Input, " cold")
+			r.cold = strings.Contains(c.replay.Input, " cold")
+			r.goreader = strings.Contains(c.replay.Input, " goreader")
 			return []raceCfg{r}
 		}
 		return nil
 	}
 	var out []raceCfg
 	if !c.thorough() {
-		return []raceCfg{{2, 2, 400, c.seed, false}, {4, 8, 250, c.seed + 1, false}, {16, 64, 60, c.seed + 2, false}, {2, 64, 25, c.seed + 3, false}, {16, 2, 400, c.seed + 4, false}, {4, 64, 40, c.seed + 5, false},
-			{16, 16, 6, c.seed + 6, true}, {16, 64, 3, c.seed + 7, true}, {4, 8, 6, c.seed + 8, true}}
+		return []raceCfg{{2, 2, 400, c.seed, false, false}, {4, 8, 250, c.seed + 1, false, false}, {16, 64, 60, c.seed + 2, false, false}, {2, 64, 25, c.seed + 3, false, false}, {16, 2, 400, c.seed + 4, false, false}, {4, 64, 40, c.seed + 5, false, false},
+			{16, 16, 6, c.seed + 6, true, false}, {16, 64, 3, c.seed + 7, true, false}, {4, 8, 6, c.seed + 8, true, false},
+			{16, 16, 120, c.seed + 9, false, true}, {4, 64, 40, c.seed + 10, false, true}, {16, 32, 5, c.seed + 11, true, true}}
 	}
 	for rep := 0; rep < 4; rep++ {
 		for _, p := range []int{2, 4, 16} {
 			for _, n := range []int{2, 8, 64} {
-				out = append(out, raceCfg{p, n, 20000 / (n + 6), c.seed + int64(len(out)), false})
+				out = append(out, raceCfg{p, n, 20000 / (n + 6), c.seed + int64(len(out)), false, rep == 3})
 			}
 		}
 	}
 	for rep := 0; rep < 12; rep++ {
-		out = append(out, raceCfg{[]int{16, 4, 2}[rep%3], []int{64, 16, 8, 32}[rep%4], 3 + rep%4, c.seed + int64(len(out)), true})
+		out = append(out, raceCfg{[]int{16, 4, 2}[rep%3], []int{64, 16, 8, 32}[rep%4], 3 + rep%4, c.seed + int64(len(out)), true, rep%2 == 1})
 	}
 	return out
 }
 
 func propC18(c *Ctx) {
 	s := c.suite("race-detector", "oracle",
-		"supporting evidence (the proof part is the footprint / non-interference theorems): harness/racecheck built with -race; GOMAXPROCS in {2,4,16} x N in {2,8,64} goroutines (quick: 4 of the combinations), each goroutine with its own seed, SA key objects and messages runs a random sequence over {Encode, Decode, EncodeEncrypt, DecodeDecrypt, GenerateKeyForIKESA, GenerateKeyForChildSA, DH public value / shared key (own values, and peer values as they may arrive on the wire: any length, 0, 1, all ones, >= p), transform mapping of all registries, EAP marshal / unmarshal / AT_MAC / PRF', GenerateRandomNumber / Uint8, decoding ONE shared read-only datagram}; the per-goroutine transcript must equal the transcript of the same sequence run alone beforehand in the same process; plus cold-start runs (3 in the quick tier, 12 in the thorough tier) in which the goroutines make the very first calls into the library of a new process, all at once, and the solo runs follow; any race report is a violation; one evaluation = one (GOMAXPROCS, N, seed) run; non-trivial = every run")
+		"supporting evidence (the proof part is the footprint / non-interference theorems): harness/racecheck built with -race; GOMAXPROCS in {2,4,16} x N in {2,8,64} goroutines (quick: 4 of the combinations), each goroutine with its own seed, SA key objects and messages runs a random sequence over {Encode, Decode, EncodeEncrypt, DecodeDecrypt, GenerateKeyForIKESA, GenerateKeyForChildSA, DH public value / shared key (own values, and peer values as they may arrive on the wire: any length, 0, 1, all ones, >= p), transform mapping of all registries, EAP marshal / unmarshal / AT_MAC / PRF', GenerateRandomNumber / Uint8, decoding ONE shared read-only datagram}; the per-goroutine transcript must equal the transcript of the same sequence run alone beforehand in the same process; plus runs in which crypto/rand.Reader is a concurrency-safe source written in Go, so that the race detector sees every place the library lets the source write to (3 quick, a quarter of the thorough runs), and cold-start runs (4 in the quick tier, 12 in the thorough tier) in which the goroutines make the very first calls into the library of a new process, all at once, and the solo runs follow; any race report is a violation; one evaluation = one (GOMAXPROCS, N, seed) run; non-trivial = every run")
 	src := harnessSrcDir()
 	if src == "" {
 		c.violate(Violation{Suite: s.Name, Kind: "correspondence", Class: "race-build-failed", Desc: "cannot locate harness/racecheck/main.go (set VERIF_HARNESS_SRC)", Input: "go build -race ./racecheck"})
